@@ -36,6 +36,10 @@ CLAIMS = {
     text="A history level over LiquidInterp: BeginRender rebuilds every per-render variable and keeps only the parser's partial store; TLC explores every history of render calls (successful and failing midway) and checks that each call's result equals the function of (template, data) computed from a fresh state and that nothing but the store survives; the harness replays every history on one shared real Parser and its Templates, and on a freshly built parser, comparing every call with the specification.",
     note="bounded: histories of 3 calls over 3 templates x 3 data x 3 template triples x {lazy, eager} exhaustively; length 6 by random walks (thorough).",
     tech=TECH_A, ref="DESIGN.md 7 C09"),
+ "C10": dict(
+    text="Model: LiquidInterp's sink fails at every logical write k of every corpus program; TLC checks accepted-bytes-are-a-prefix of the fault-free run, error-iff-failed, no write after failure and stream = buffered for k = 0. Implementation: the harness drives the real render_to with a sink wrapper failing at every physical call k (whole-buffer and byte-at-a-time modes) and records every call; TLC validates the recorded trace against LiquidSink via Trace_Sink.tla (every event must be an enabled action; prefix invariant evaluated at every step; acceptance by postcondition).",
+    note="bounded corpus (267 programs quick / ~3000 thorough, thinned to 1500 for tracing); trusted: the sink wrapper's logging; fault-free output equality with the specification is established by the replay stage.",
+    tech=TECH_AB, ref="DESIGN.md 7 C10"),
  "C18": dict(
     text="TLC explores every operation sequence of the explicit TLA+ specification LiquidRuntime up to the stated length from all 9 base maps, checks the declarative scope meaning against the delegation-chain form in every state, and every explored sequence is replayed on the real StackFrame/SandboxedStackFrame/GlobalFrame types with all lookups, roots, counters and register ownership compared after every operation.",
     note="bounded: length 3 (quick) / 4 exhaustive replay, 5 state-space, 6 reduced alphabet + random walks (thorough); values are scalars and one-key objects; trusted: TLC, the harness's encoding of observations.",
